@@ -134,6 +134,13 @@ def history(draw, cf=None):
     for i in range(n):
         f = draw(dg.fields_for(cf, all_set=False)) if i == 0 else \
             draw(dg.fields_for(cf).map(lambda d: dict(list(d.items())[:2])))
+        if cf & 0x8000 and draw(st.integers(0, 3)) == 0:
+            # optional elements of a PS3.7 failure response that no message class of the library declares: the
+            # application adds them through the public command_set
+            extra = draw(st.sets(st.sampled_from(['ErrorComment', 'OffendingElement', 'ErrorID']), min_size=1))
+            f = dict(f)
+            for kw in sorted(extra):
+                f[kw] = draw(dg.value_for(refcmd.ELEMENTS[kw][1]))
         steps.append({'fields': f, 'data': draw(dg.data_bytes(60))})
     return cf, steps, draw(st.integers(1, 255)), draw(st.sampled_from([16, 38, 64, 1024, 65536])), \
         draw(st.booleans())
@@ -147,6 +154,8 @@ def nontrivial(steps):
 
 def labels(cf, steps, dec):
     out = ['cf=%04X' % cf, 'sends=%d' % len(steps), 'decoded-origin' if dec else 'constructed']
+    if any(kw in s['fields'] for s in steps for kw in ('ErrorComment', 'OffendingElement', 'ErrorID')):
+        out.append('undeclared-optional-elements')
     pres = [bool(s['data']) for s in steps]
     for a, b in zip(pres, pres[1:]):
         out.append('toggle=%s>%s' % ('ds' if a else 'none', 'ds' if b else 'none'))
